@@ -5,6 +5,7 @@ CONSTANTS
   Dks = {1, 2}
   Das = {2, 3}
   Rs = {1}
+  JointQ = FALSE
   Offs = {0, 1, 2}
 INIT Init
 NEXT Next
